@@ -251,7 +251,11 @@ def d5(chk, prog):
             chk.violate("ordered-fanout", f"{fi.qn}::{norm(n.func)}", fi.loc(n), "completion-order consumption of pool results")
     for fi, n in here:
         chk.decide(n.func.attr == "map", "ordered-fanout", f"{fi.name}: pool.{n.func.attr}({norm(n.args[0]) if n.args else ''})", f"{fi.qn}::pool.{n.func.attr}", fi.loc(n), f"pool.{n.func.attr} does not preserve submission order")
-    # chunker, small-scope exhaustive
+    chunker(chk, prog)
+
+
+def chunker(chk, prog):
+    """to_chunks, small-scope exhaustive (shared with C10: the N-worker pileup must see every line the 1-worker run sees)"""
     ft = prog.fn("cnvlib.parallel.to_chunks")
     tb = Table(chk, "chunker", "to_chunks: chunk sizes 1..3 x line counts 0..3c+1 (with comment lines)", ft.loc(), ft.qn)
     for c in (1, 2, 3):
